@@ -429,6 +429,64 @@ def judge_C14(w):
     return None
 
 
+# ------------------------------------------------------------------------------------------------ C19 (bounded reader memory)
+def retained(obj, seen=None, by=None, path=""):
+    """sum of the lengths of every sequence reachable from the reader object (octets held)"""
+    seen = seen if seen is not None else set()
+    if id(obj) in seen:
+        return 0
+    seen.add(id(obj))
+    if isinstance(obj, (bytes, bytearray, str)):
+        if by is not None:
+            by[path] = by.get(path, 0) + len(obj)
+        return len(obj)
+    if isinstance(obj, (list, tuple, set)):
+        return sum(retained(x, seen, by, path + "[]") for x in obj)
+    if isinstance(obj, dict):
+        return sum(retained(v, seen, by, path + "{}") for v in obj.values())
+    if hasattr(obj, "__dict__") and type(obj).__module__.startswith("han."):
+        return sum(retained(v, seen, by, (path + "." if path else "") + k) for k, v in vars(obj).items())
+    return 0
+
+
+def c19_limit(which):
+    return 3 * (2048 if which.startswith("hdlc") else 8192)
+
+
+def c19_run(w):
+    which = w["which"]
+    r = make_reader(which)
+    stream = bytes.fromhex(w["prefix"]) + bytes.fromhex(w["period"]) * w["reps"]
+    c = w["chunk"]
+    worst, worst_by, at = 0, {}, 0
+    for off in range(0, len(stream), c):
+        ch = stream[off:off + c]
+        r.read(ch)
+        by = {}
+        v = retained(r, by=by) - len(ch)
+        if v > worst:
+            worst, worst_by, at = v, by, off + len(ch)
+    return worst, worst_by, at, len(stream)
+
+
+def observe_C19(w):
+    worst, _, _, n = c19_run(w)
+    return [worst > c19_limit(w["which"]), n]
+
+
+def judge_C19(w):
+    try:
+        worst, by, at, n = c19_run(w)
+    except Exception as e:
+        return {"signature": "exception:" + exc_signature(e), "detail": repr(e)}
+    if worst > c19_limit(w["which"]):
+        top = max(by, key=by.get)
+        return {"signature": f"unbounded-retention:{'hdlc' if w['which'].startswith('hdlc') else 'p1'}:{top}",
+                "detail": f"{w['which']} reader retains {worst} octets beyond the last chunk after {at} of {n} octets (limit {c19_limit(w['which'])}); "
+                          f"stream = {w['prefix'][:40]} + ({w['period'][:40]}) x {w['reps']}, chunk {w['chunk']}; held in {top}={by[top]}"}
+    return None
+
+
 # ------------------------------------------------------------------------------------------------ dispatch
 def observe(prop, w):
     fn = globals().get("observe_" + prop + ("_" + w["sub"] if w.get("sub") else ""))
